@@ -26,7 +26,9 @@ const Rule = "cases = (source bytes, buffer size n, reader script, call sequence
 	"readers full / one-byte / half / data-with-EOF / random scripts of chunk caps with zero-length reads and EOF-with-data; " +
 	"comp=input keeps the pending lexeme <= n bytes (the property's precondition) and mixes next/retract/lexeme/skip incl. " +
 	"scanner-style 'read until delimiter, retract, lexeme'; comp=stream is next-only for any n; comp=wild ignores the " +
-	"precondition and injects I/O errors (no oracle, implementation vs Model only); non-trivial = the case reloaded a buffer " +
+	"precondition and injects I/O errors (no oracle, implementation vs Model only); every string returned by Lexeme is kept " +
+	"uncopied for the whole case and compared after every later call with a deep copy taken at receipt and with the " +
+	"source span (in every stream); non-trivial = the case reloaded a buffer " +
 	"half and also (used a reader with short reads or EOF-with-data, or consumed a rune straddling a half boundary, or " +
 	"retracted across a half boundary or at end of input), or an ill-formed sequence was reported; distinct = distinct (header, op list)"
 
@@ -226,6 +228,32 @@ func exec(c hx.Case) hx.Result {
 	pos, begin := 0, 0 // byte offsets into src: consumed prefix, start of the pending lexeme
 	var sizes []int    // sizes of the pending runes
 	stop := false      // after an ill-formed sequence was reported nothing more is specified
+
+	// Every string handed out by Lexeme is kept for the whole case, exactly as it was returned (a caller keeps
+	// its lexemes: they are to concatenate to the consumed prefix), next to a deep copy taken at receipt and the
+	// oracle's expectation. After every later call and at the end of the case each kept string is compared again.
+	type keptLexeme struct {
+		op     int
+		got    string // the value returned, never copied
+		clone  string // strings.Clone(got) at receipt
+		want   string // the pending part of the source at that time ("" when the oracle no longer follows)
+		wanted bool
+	}
+	var kept []keptLexeme
+	recheck := func(at int) {
+		for _, k := range kept {
+			if k.got != k.clone {
+				bad(at, "", "the lexeme returned at op %d (%q) changed later: after op %d the same string reads %q",
+					k.op, k.clone, at, strings.Clone(k.got))
+				tags["kept-lexeme-changed"] = true
+				return
+			}
+			if k.wanted && k.got != k.want {
+				bad(at, "", "the lexeme returned at op %d no longer equals the source span %q: it reads %q", k.op, k.want, strings.Clone(k.got))
+				return
+			}
+		}
+	}
 	lastWasNextOK := false
 
 	for i, op := range c.Ops {
@@ -308,6 +336,9 @@ func exec(c hx.Case) hx.Result {
 					if sz > 1 && pos/n != (pos+sz-1)/n {
 						tags["rune-straddles-halves"] = true
 					}
+					if len(kept) > 0 && pos/n != (pos+sz)/n {
+						tags["lexeme-kept-across-reload"] = true
+					}
 					pos += sz
 					sizes = append(sizes, sz)
 					lastWasNextOK = true
@@ -342,6 +373,11 @@ func exec(c hx.Case) hx.Result {
 				}
 				s, p := in.Lexeme()
 				out = "ok x" + hex.EncodeToString([]byte(s)) + " " + posStr(p)
+				kl := keptLexeme{op: i, got: s, clone: strings.Clone(s)}
+				if checked && !stop && pos <= len(src) && begin <= pos {
+					kl.want, kl.wanted = string(src[begin:pos]), true
+				}
+				kept = append(kept, kl)
 				check = func() {
 					want := string(src[begin:pos])
 					_, line, col := lineCol(src, begin)
@@ -386,6 +422,7 @@ func exec(c hx.Case) hx.Result {
 			break
 		}
 		res.Outs = append(res.Outs, out)
+		recheck(i) // strings are immutable: a kept lexeme must read the same after every later call, in every stream
 		if checked && !stop && check != nil {
 			check()
 			if pos-begin > n && comp == "input" {
